@@ -61,11 +61,16 @@ def rule_edgepred(ctx):
             if m.how == "setitem":
                 good_w = good_w and m.val.op == "list" and not m.val.a
                 key_t = m.key
+            elif m.how == "method:setdefault":
+                args = m.val.a if m.val.op == "tuple" else ()
+                good_w = good_w and len(args) == 2 and args[1].op == "list" and not args[1].a
+                key_t = args[0] if args else None
             elif m.how == "method:append":
                 val_t = m.val.a[0] if m.val.op == "tuple" and m.val.a else None
             else:
                 good_w = False
-        yield ob("C05.EDGEPRED", f, "%s:graph-writes" % q, good_w and sorted(kinds) == ["method:append", "setitem"], "graph is written only by G[e] = [] and G[e].append(r) (%s)" % kinds)
+        idiom = sorted(kinds) in (["method:append", "setitem"], ["method:append", "method:setdefault"])
+        yield ob("C05.EDGEPRED", f, "%s:graph-writes" % q, good_w and idiom, "graph is written only by G[e] = [] / G.setdefault(e, []) and .append(r) (%s)" % kinds)
         # iteration over zip(*hits); key = component 1 (estimate index), value = component 0 (reference index)
         zipok = it.op == "call" and call_name(it) == "builtins.zip" and len(it.a[1]) == 1 and it.a[1][0].op == "star"
         hits = it.a[1][0].a[0] if zipok else None
